@@ -129,15 +129,20 @@ class Ldmcsu(Gate):
             alpha = (z_value + 0j) ** (1 / 4)
             beta = 0.0
         else:
-            alpha_r = np.sqrt((np.sqrt((z_value.real + 1.0) / 2.0) + 1.0) / 2.0)
+            # z.real + 1 without cancellation near z.real = -1 (|z|^2 + x^2 = 1)
+            if z_value.real < 0:
+                zr_plus_1 = (x_value**2 + z_value.imag**2) / (1.0 - z_value.real)
+            else:
+                zr_plus_1 = z_value.real + 1.0
+            alpha_r = np.sqrt((np.sqrt(zr_plus_1 / 2.0) + 1.0) / 2.0)
             alpha_i = z_value.imag / (
-                    2.0 * np.sqrt((z_value.real + 1.0) *
-                                  (np.sqrt((z_value.real + 1.0) / 2.0) + 1.0))
+                    2.0 * np.sqrt(zr_plus_1 *
+                                  (np.sqrt(zr_plus_1 / 2.0) + 1.0))
             )
             alpha = alpha_r + 1.0j * alpha_i
             beta = x_value / (
-                    2.0 * np.sqrt((z_value.real + 1.0) *
-                                  (np.sqrt((z_value.real + 1.0) / 2.0) + 1.0))
+                    2.0 * np.sqrt(zr_plus_1 *
+                                  (np.sqrt(zr_plus_1 / 2.0) + 1.0))
             )
         s_op = np.array([[alpha, -np.conj(beta)], [beta, np.conj(alpha)]])
         return s_op
